@@ -372,6 +372,7 @@ func worker(t *testing.T, c core.Cfg) {
 					part.Samples = append(part.Samples, sampleOf(w, e, o, pname))
 				}
 				vs := Check(w, e, o, base, faulty)
+				part.Counters.Merge(o.Probes)
 				for _, v := range vs {
 					key := v.Class + "|" + v.Sig
 					if classesSeen[key] {
